@@ -1,12 +1,12 @@
 ------------------------------ MODULE FramingSim ------------------------------
 (* Behaviour generator (spec -> code) for C16: FramingMC plus a history of the predicted observable
-   of every call (printed from level 6 on: many streams end early); replayed on the real receivers.                              *)
+   of every call (printed from level 5 on: many streams end early); replayed on the real receivers.                              *)
 EXTENDS FramingMC, Json
 CONSTANT Depth
 VARIABLE hist
 SInit == MCInit /\ hist = <<>>
 SNext == MCNext /\ hist' = IF last'.e = "extend" THEN hist ELSE Append(hist, last')
 SSpec == SInit /\ [][SNext]_<<mcvars, hist>>
-Emit == TLCGet("level") < 6 \/ PrintT(<<"BEH", ToJson([cfg |-> cfg, str |-> str, hist |-> hist])>>)
+Emit == TLCGet("level") < 5 \/ PrintT(<<"BEH", ToJson([cfg |-> cfg, str |-> str, hist |-> hist])>>)
 Stop == TLCGet("level") <= Depth
 =============================================================================
